@@ -104,6 +104,7 @@ pub fn make_case(prop: &str, seed: u64) -> Case {
                     mix.send = 30;
                 }
                 "C03" => {
+                    case.gen.send_then_restart_chance = 0.35;
                     mix.restart_clean = 12;
                     mix.restart_flush_kill = 5;
                     mix.restart_lose_index = if case.knobs.cache_indexes { 3 } else { 0 };
@@ -122,6 +123,9 @@ pub fn make_case(prop: &str, seed: u64) -> Case {
                     mix.catalogue = 6;
                 }
                 _ => {
+                    if prop == "C01" {
+                        case.gen.send_then_restart_chance = 0.2;
+                    }
                     if rng.chance(0.1) {
                         mix.back_jump = 2;
                     }
